@@ -227,6 +227,69 @@ pub fn c10_families(tier: &str) -> Vec<(Family, bool)> {
     v
 }
 
+/// child-process entry: component functions on one very long path / cycle (depth = number of nodes)
+pub fn one(label: &str) -> i32 {
+    // on a thread with the default (2 MiB) stack, as a caller's worker thread or a test would have
+    let l = label.to_string();
+    std::thread::spawn(move || one_inner(&l)).join().unwrap_or(4)
+}
+
+fn one_inner(label: &str) -> i32 {
+    use graphrs::{Edge, Graph, GraphSpecs};
+    let p: Vec<&str> = label.split(':').collect();
+    if p.len() != 3 {
+        return 2;
+    }
+    let n: i32 = p[1].parse().unwrap_or(1000);
+    let directed = p[2] == "directed";
+    let mut g: Graph<i32, ()> = Graph::new(if directed { GraphSpecs::directed_create_missing() } else { GraphSpecs::undirected_create_missing() });
+    for i in 0..n - 1 {
+        g.add_edge(Edge::new(i, i + 1)).expect("path edge");
+    }
+    if p[0] == "cycle" {
+        g.add_edge(Edge::new(n - 1, 0)).expect("cycle edge");
+    }
+    let mut ok = true;
+    if directed {
+        let w = components::weakly_connected_components(&g).map(|c| c.len());
+        ok &= matches!(w, Ok(1));
+        let s = components::strongly_connected_components(&g).map(|c| c.len());
+        ok &= matches!(s, Ok(k) if k == if p[0] == "cycle" { 1 } else { n as usize });
+    } else {
+        let cc = components::connected_components(&g).map(|c| (c.len(), c.iter().map(|x| x.len()).sum::<usize>()));
+        ok &= matches!(cc, Ok((1, k)) if k == n as usize);
+        ok &= matches!(components::number_of_connected_components(&g), Ok(1));
+        ok &= matches!(components::node_connected_component(&g, &(n / 2)), Ok(ref s) if s.len() == n as usize);
+    }
+    let bfs = g.breadth_first_search(&0);
+    ok &= bfs.len() == n as usize || (directed && bfs.len() == n as usize);
+    if ok {
+        0
+    } else {
+        3
+    }
+}
+
+fn deep_component_stage(tier: &str, rec: &Recorder, out: &mut RunOutput) {
+    let n = if tier == "quick" { 150_000 } else { 600_000 };
+    let exe = std::env::current_exe().expect("current_exe");
+    // (a directed path has n strong components, which the library handles in quadratic time: kept short)
+    for label in [format!("path:{n}:undirected"), format!("cycle:{n}:undirected"), "path:3000:directed".to_string(), format!("cycle:{n}:directed")] {
+        out.add("deep_component_graphs", 1);
+        match std::process::Command::new(&exe).args(["c10one", &label]).output() {
+            Err(e) => out.machinery_errors.push(format!("cannot spawn the deep-component child: {e}")),
+            Ok(o) => match o.status.code() {
+                Some(0) => {}
+                Some(3) => rec.record(Violation::new("classes", "components", format!("deep:{label}"), format!("a component function returned a wrong answer on the {label} graph (one component of {n} nodes)"))),
+                other => {
+                    let err = String::from_utf8_lossy(&o.stderr);
+                    rec.record(Violation::new("no_stack_overflow_or_abort", "components", format!("deep:{label}"), format!("a component function killed the process on the {label} graph (kind:nodes:direction; one long chain), called from a thread with the default stack: exit status {other:?} / {:?}; stderr: {}", o.status, err.lines().last().unwrap_or(""))));
+                }
+            },
+        }
+    }
+}
+
 pub fn run(tier: &str, rec: &Recorder) -> RunOutput {
     let start = Instant::now();
     let mut out = RunOutput::new("model_checking");
@@ -237,6 +300,7 @@ pub fn run(tier: &str, rec: &Recorder) -> RunOutput {
         for_each_graph(&f, seed, deadline, &stats, |b, c| check_components(b, rec, c, deep));
     }
     fill_e2_coverage(&mut out, &stats);
+    deep_component_stage(tier, rec, &mut out);
     out.set("traces_validated_against_impl", out.get("transitions"));
     out.set("choice_points_explored", out.get("scc_order_executions"));
     out.set("distinct_nontrivial", out.get("digraphs_with_nontrivial_and_several_sccs"));
@@ -249,6 +313,11 @@ pub fn run(tier: &str, rec: &Recorder) -> RunOutput {
 }
 
 pub fn replay(case: &str, rec: &Recorder) -> bool {
+    if case.starts_with("deep:") {
+        let mut out = RunOutput::new("model_checking");
+        deep_component_stage("quick", rec, &mut out);
+        return rec.has_any();
+    }
     let (f, _, _, _, _) = match parse_case(case) {
         Some(x) => x,
         None => return false,
